@@ -180,6 +180,8 @@ pub struct Stats {
 	pub notes: Vec<String>,
 	pub assumptions: Vec<String>,
 	pub infra_problems: Vec<String>,
+	/// ids for which a KNOWN-FINDING line has been printed in this run
+	pub reported_known: std::collections::BTreeSet<String>,
 }
 
 #[derive(Clone, Debug)]
@@ -503,7 +505,9 @@ impl Run {
 	}
 	/// Print KNOWN-FINDING line (once per id per run)
 	pub fn report_known(&self, id: &str) {
-		println!("KNOWN-FINDING: property={} {} [{}]", self.prop, self.known_what(id), id);
+		if self.stats.lock().unwrap().reported_known.insert(id.to_owned()) {
+			println!("KNOWN-FINDING: property={} {} [{}]", self.prop, self.known_what(id), id);
+		}
 	}
 
 	pub fn require_class(&self, class: &str, min: u64) {
@@ -516,6 +520,13 @@ impl Run {
 	}
 
 	pub fn write_evidence(&self) -> i32 {
+		// every recorded finding of this property that explained a case in this run is named once on stdout
+		let hit: Vec<String> = self.stats.lock().unwrap().known_hits.keys().cloned().collect();
+		for id in hit {
+			if self.is_known(&id) {
+				self.report_known(&id);
+			}
+		}
 		let st = self.stats.lock().unwrap();
 		let nviol = st.violations.len();
 		let mut samples = st.samples.clone();
